@@ -33,7 +33,7 @@ pub fn dump_logs(args: &[String], seed: u64) -> i32 {
             return 2;
         }
     };
-    let cfg = PoolConfig { workers, chunk: 8, run_budget: Duration::from_secs(120), deadline: None, thorough: tier == Tier::Thorough };
+    let cfg = PoolConfig { workers, chunk: 8, run_budget: Duration::from_secs(120), deadline: None, thorough: tier == Tier::Thorough, fresh_per_spec: false };
     let mut planner = Planner::new(seed, &prop, tier, hooks);
     let mut census_entries: Vec<&Entry> = corpus.g.iter().collect();
     census_entries.extend(corpus.k0.iter());
@@ -174,7 +174,7 @@ pub fn scan(args: &[String]) -> i32 {
             classify: false,
         })
         .collect();
-    let cfg = PoolConfig { workers: 16, chunk: if op == Op::IsEuclidean { 64 } else { 1 }, run_budget: Duration::from_secs(budget), deadline: None, thorough: false };
+    let cfg = PoolConfig { workers: 16, chunk: if op == Op::IsEuclidean { 64 } else { 1 }, run_budget: Duration::from_secs(budget), deadline: None, thorough: false, fresh_per_spec: false };
     let recs = run_collect(&specs, &cfg);
     let mut hist: BTreeMap<String, u64> = BTreeMap::new();
     let mut probes: BTreeMap<String, u64> = BTreeMap::new();
